@@ -398,6 +398,7 @@ class Context:
 
         arr_constructor = JSCallableObject(array_constructor)
         arr_constructor._prototype = array_prototype
+        arr_constructor.set("prototype", array_prototype)
         array_prototype.set("constructor", arr_constructor)
 
         # Store for other uses
